@@ -258,6 +258,12 @@ func candidateInsts(in CaseInst) []CaseInst {
 			m2 := all(0xff)
 			m2[r] = BVLit(0xff&^(1<<uint(b)), 8)
 			cands = append(cands, m2)
+			if b < 7 {
+				// two adjacent bits: the highest code of a two-bit field
+				m3 := all(0)
+				m3[r] = BVLit(3<<uint(b), 8)
+				cands = append(cands, m3)
+			}
 		}
 	}
 	var out []CaseInst
